@@ -453,6 +453,46 @@ def mkSet (c : Cfg) (g : Graph) (ks : List Nat) : Node :=
 def mkMap (c : Cfg) (g : Graph) (kvs : List (Nat × Nat)) : Node :=
   .map (kvs.foldl (fun es e => mapInsertIds (keyEqImpl c g) es e.1 e.2) [])
 
+/-! ## Hash maps and hash sets KEYED BY VALUES of the graph (`hash-insert` / `hash-ref` / `hash-remove` /
+`hash-contains?`, `hashset-insert` / `hashset-contains?` with keys that are themselves collections)
+
+`keyEq q k` = "the query `q` finds the stored key `k`" (`keyEqImpl`: same hash and `==`).  The entries carry any
+kind of value (`ν`); with `ν = Nat` `gmInsert` is `mapInsertIds`. -/
+
+def gmGet {ν : Type} (keyEq : Nat → Nat → Bool) (es : List (Nat × ν)) (q : Nat) : Option ν :=
+  (es.find? fun e => keyEq q e.1).map Prod.snd
+def gmInsert {ν : Type} (keyEq : Nat → Nat → Bool) (es : List (Nat × ν)) (k : Nat) (v : ν) : List (Nat × ν) :=
+  es.filter (fun e => !keyEq k e.1) ++ [(k, v)]
+def gmRemove {ν : Type} (keyEq : Nat → Nat → Bool) (es : List (Nat × ν)) (k : Nat) : List (Nat × ν) :=
+  es.filter fun e => !keyEq k e.1
+def gmContains {ν : Type} (keyEq : Nat → Nat → Bool) (es : List (Nat × ν)) (q : Nat) : Bool :=
+  (gmGet keyEq es q).isSome
+
+/-- `imbl::HashMap::union(self, other)` on maps keyed by values: the LARGER map is mutated; the entries of the other one
+    are inserted when the key is vacant, and also over an occupied key when the consumed map is `self` -/
+def gmUnion {ν : Type} (keyEq : Nat → Nat → Bool) (self other : List (Nat × ν)) : List (Nat × ν) :=
+  if self.length ≥ other.length then
+    other.foldl (fun m e => if (gmGet keyEq m e.1).isSome then m else gmInsert keyEq m e.1 e.2) self
+  else
+    self.foldl (fun m e => if (gmGet keyEq m e.1).isSome then gmInsert keyEq m e.1 e.2 else gmInsert keyEq m e.1 e.2) other
+
+/-! ### the set algebra of `imbl::HashSet` on members that are values of the graph (`hashset-union`,
+`hashset-intersection`, `hashset-difference` = `symmetric_difference`, `hashset-subset?`) -/
+
+/-- `HashSet::remove(&k)`: the stored member the query finds is removed -/
+def gsRemove (keyEq : Nat → Nat → Bool) (xs : List Nat) (k : Nat) : List Nat := xs.filter fun x => !keyEq k x
+/-- `HashSet::union`: the larger set is mutated, the members of the other one are inserted -/
+def gsUnion (keyEq : Nat → Nat → Bool) (self other : List Nat) : List Nat :=
+  if self.length ≥ other.length then other.foldl (setInsertIds keyEq) self else self.foldl (setInsertIds keyEq) other
+/-- `HashSet::symmetric_difference`: `for value in other { if self.remove(&value).is_none() { self.insert(value) } }` -/
+def gsSymDiff (keyEq : Nat → Nat → Bool) (self other : List Nat) : List Nat :=
+  other.foldl (fun acc x => if acc.any (keyEq x) then gsRemove keyEq acc x else setInsertIds keyEq acc x) self
+/-- `HashSet::intersection`: `for value in other { if self.contains(&value) { out.insert(value) } }` -/
+def gsInter (keyEq : Nat → Nat → Bool) (self other : List Nat) : List Nat :=
+  other.foldl (fun out x => if self.any (keyEq x) then setInsertIds keyEq out x else out) []
+/-- `HashSet::is_subset`: `self.iter().all(|a| o.contains(a))` -/
+def gsSubset (keyEq : Nat → Nat → Bool) (self other : List Nat) : Bool := self.all fun a => other.any (keyEq a)
+
 /-- What is assumed about the identities of lists (it holds for im-lists): two lists whose first nodes
     have the same element storage, the same index AND the same next node have the same elements.  (The
     other assumption is built into the representation: a node id = a head cell has ONE definition.) -/
